@@ -21,7 +21,7 @@ ASSUMPTIONS = ['literal parts of aggregation patterns are restricted to [a-z0-9_
 
 DESTS = [('10.0.0.1', 2004, 'a'), ('10.0.0.1', 2104, 'b'), ('10.0.0.2', 2004, 'a'), ('10.0.0.3', 2004, None),
          ('hostx', 2014, 'c'), ('::1', 2004, 'v6')]
-REL_PATTERNS = ['^servers\\.', 'cpu', '\\.count$', '^a', 'web\\d+', '.*', 'PROD', 'x|y', '^$', 'mem|disk', '^carbon\\.', 'q{2}', '[0-9]$',
+REL_PATTERNS = ['', '^servers\\.', 'cpu', '\\.count$', '^a', 'web\\d+', '.*', 'PROD', 'x|y', '^$', 'mem|disk', '^carbon\\.', 'q{2}', '[0-9]$',
                 # negated classes, upper-case escapes and anchors (what re.I leaves alone), classes, look-aheads
                 '^servers\\.\\D+\\.', '^\\S+\\.cpu', '\\Aprod\\.', '\\.x\\Z', '\\Bb\\B', '^[^\\W_]+$', '\\W', '^(?!servers)\\w+\\.', '[A-Z]{2}', '(?-i:PROD)', 'disk\\.\\d\\Z']
 REL_NAMES = ['servers.web1.cpu.idle', 'servers.db.mem.free', 'a.b.count', 'carbon.agents.h.cpuUsage', 'prod.api.hits', 'PROD.x',
